@@ -39,6 +39,11 @@ Sgr1 == { Csi(<<>>, <<109>>), Csi(<<52, 49>>, <<109>>), Csi(<<53>>, <<109>>), <<
 Avt == { <<22, k>> : k \in 2..6 } \cup { <<22, 8, a, b>> : a \in {0, 1, W + 1}, b \in {0, H + 1} } \cup { <<25, 65, n>> : n \in {0, 2, W + 1} } \cup { <<22, 1, 23>>, <<12>> }
 CtrlATok == { <<1, k>> : k \in {76, 39, 74, 62, 60, 124, 93, 72, 78, 130} }
 
+PetTok == { <<k>> : k \in {65, 32, 13, 10, 17, 145, 29, 157, 19, 20, 147, 18, 146, 14, 142, 28, 255, 141} } \cup { <<27, k>> : k \in {81, 80, 64, 74, 75, 68, 73, 65} }
+VdTok == { <<k>> : k \in {65, 33, 8, 9, 10, 11, 12, 13, 17, 20, 30, 127} } \cup { <<27, k>> : k \in {65, 81, 72, 73, 76, 77, 88, 89, 90, 92, 93, 94, 95, 48} }
+M7Tok == { <<k>> : k \in {65, 8, 9, 10, 11, 12, 13, 30, 127, 129, 136, 137, 140, 141, 145, 152, 153, 154, 156, 157, 158, 159, 161, 255, 128} }
+AtaTok == { <<k>> : k \in {65, 193, 28, 29, 30, 31, 125, 126, 127, 155, 156, 157, 253, 254, 255} } \cup { <<27, k>> : k \in {27, 125, 65} }
+
 Big == {<<54, 53, 53, 51, 54>>, <<57, 57, 57, 57, 57, 57, 57, 57, 57, 57, 57>>}      \* "65536", "99999999999" (saturates at 2147483599)
 Huge == { Csi(b, <<f>>) : b \in Big, f \in {64, 80, 76, 77, 83, 84, 98, 89, 90, 88, 65, 66, 67, 68, 69, 70, 71, 100, 101, 97, 114} }
         \cup { Csi(b, <<32, 64>>) : b \in Big } \cup { Csi(b, <<32, 65>>) : b \in Big } \cup { Csi(<<49, 59>> \o b, <<114>>) : b \in Big } \cup { Csi(<<49, 59>> \o b, <<115>>) : b \in Big }
@@ -51,6 +56,10 @@ Toks == CASE Slice = "huge"    -> Huge
           [] Slice = "margins" -> Stbm \cup Lrm \cup SlSr \cup { Csi(P1(n), <<f>>) : n \in {1, 2}, f \in {65, 66, 83, 84, 76, 77} } \cup { <<10>>, <<27, 68>>, <<27, 77>>, <<27, 69>>, <<65>>, <<12>>, <<27, 91, 63, 54, 57, 104>> } \cup Cup
           [] Slice = "content" -> Printable \cup Rect \cup Sgr1 \cup C0 \cup Modes \cup { Csi(P1(n), <<f>>) : n \in {1, 2}, f \in {64, 80, 88, 98, 97, 39, 71} } \cup { Csi(<<>>, <<f>>) : f \in {74, 75, 64} }
           [] Slice = "avatar"  -> Avt \cup Printable \cup { <<10>>, <<13>> } \cup Cup
+          [] Slice = "petscii" -> PetTok
+          [] Slice = "viewdata" -> VdTok
+          [] Slice = "mode7"   -> M7Tok
+          [] Slice = "atascii" -> AtaTok
           [] Slice = "ctrla"   -> CtrlATok \cup Printable \cup { <<10>>, <<13>> } \cup Cup
           [] OTHER -> OneParam \cup NoParam \cup Cup \cup Stbm \cup Modes \cup EscTok \cup C0 \cup Printable \cup Lrm \cup SlSr \cup Rect \cup Sgr1
 
